@@ -714,6 +714,19 @@ def audit(ctx, rule, prefixes, exempt, floor, exclude=()):
                     if key_matches(norm_shape(ek), norm_shape(key)):
                         hit = (ek, reason)
                         break
+                if not hit:
+                    # a private helper with a single caller is a piece of that caller: the caller's audited sites go with it
+                    owner = sole_caller(F, b)
+                    hops = 0
+                    while owner is not None and not hit and hops < 2:
+                        hops += 1
+                        ofn = sym.short(strip_generics(owner.path).replace("::{closure#0}", "{c0}"))
+                        key2 = ofn + "|" + key.split("|", 1)[1]
+                        for ek, reason in exempt.items():
+                            if key_matches(norm_shape(ek), norm_shape(key2)):
+                                hit = (ek, reason + " [site moved into the private helper %s, whose only caller is %s]" % (key.split("|")[0], ofn))
+                                break
+                        owner = sole_caller(F, owner)
                 if hit:
                     ex += 1
                     used.add(hit[0])
